@@ -229,6 +229,12 @@ func (i *interpreter) decide(c *term) bool {
 	if p.pcSet[nc] {
 		return false
 	}
+	if i.job != nil && i.job.MaxDecisions > 0 && len(p.dec) >= i.job.MaxDecisions && !i.noFork {
+		// a path that keeps branching on its inputs (a loop over symbolic data that does not end):
+		// treated like an exhausted step budget
+		i.abortReason = "steps"
+		panic(pathAbort{"steps"})
+	}
 	var side bool
 	if p.pos < len(p.prefix) {
 		d := p.prefix[p.pos]
